@@ -30,9 +30,20 @@ DEFAULT_LEVEL = _real_logging.WARNING
 LEVELS = (_real_logging.WARNING, _real_logging.DEBUG, _real_logging.WARNING, _real_logging.INFO)
 
 
+_null_handler_installed = False
+
+
 def set_level_for_case(digest_hex):
-    global DEFAULT_LEVEL
+    """Also sets the REAL root logger to that level (repository modules that are not shimmed - reverse_dfs,
+    roberta_generator - read it from there).  A NullHandler keeps logging.basicConfig() from being triggered
+    implicitly, so nothing is printed."""
+    global DEFAULT_LEVEL, _null_handler_installed
     DEFAULT_LEVEL = LEVELS[int(digest_hex[:4], 16) % len(LEVELS)]
+    root = _real_logging.getLogger()
+    if not _null_handler_installed:
+        root.addHandler(_real_logging.NullHandler())
+        _null_handler_installed = True
+    root.setLevel(DEFAULT_LEVEL)
     return DEFAULT_LEVEL
 
 
@@ -109,7 +120,8 @@ def sweep_budget(tad, n_sweeps=None, n_states=None, extra_modules=(), on_reward_
         # plus slack for the final bookkeeping pass
         shim.step_budget = (n_sweeps + 2) * max(1, n_states)
     saved_logging = []
-    for mod in (tad,) + tuple(extra_modules):
+    mods = [tad] + [m for m in extra_modules if m is not tad]
+    for mod in mods:
         if hasattr(mod, "logging"):
             saved_logging.append((mod, mod.logging))
             mod.logging = shim
